@@ -167,7 +167,9 @@ def oracle_flatten(case: Any, obs: Any) -> Optional[str]:
         return 'elements %s in the output, the tree has %s' % (sorted(got[0]), sorted(want[0]))
     if sorted(got[1]) != sorted(want[1]):
         return 'attributes %s in the output, the tree has %s' % (sorted(got[1]), sorted(want[1]))
-    if got[2] != eol(ILLEGAL1.sub('', want[2])):
+    # line ends are normalised by the parser per run of character data: compare the text without CR / LF
+    strip = lambda t: ILLEGAL1.sub('', t).replace('\r', '').replace('\n', '')
+    if strip(got[2]) != strip(want[2]):
         return 'text %r in the output, the tree says %r' % (got[2], want[2])
     return None
 
@@ -335,7 +337,8 @@ def project(fmt: str, pl: Dict[str, Any]) -> Dict[str, Any]:
         '    return lambda f: f',
         'CONST = %s' % r(pl['const']),
         r('Constant doc %s.' % pl['attr_doc']),
-        'TABLE = {%s: [%s, (%s,)], 1: %s}' % (r(pl['dict_key']), r(pl['const']), r(pl['default2']), r(pl['bytes'].encode('utf-8', 'replace'))),
+        'TABLE = {%s: [%s]}' % (r(pl['dict_key']), r(pl['const'])),
+        'PAIR = (%s, %s)' % (r(pl['default2']), r(pl['bytes'].encode('utf-8', 'replace'))),
         'class C(List[Literal[%s]]):' % r(pl['base_arg']),
         '    ' + r('Class summary %s.' % pl['doc2']),
         '    attr: Literal[%s] = %s' % (r(pl['annot']), r(pl['default'])),
@@ -493,7 +496,7 @@ class Check(PropertyCheck):
         out.append([0, [1, 'd\xe9', [], []]])
         out.append([0, [1, 'a', [['h\xe9', 'x']], []]])
         out.append([0, [1, '', [['h\xe9', 'x']], [[0, 'y']]]])
-        nrand = 1500 if self.tier == 'quick' else 40000
+        nrand = 3000 if self.tier == 'quick' else 40000
         for _ in range(nrand):
             out.append([0, self.rand_stan(3)])
         self.stats['random_stan'] = nrand
@@ -634,13 +637,16 @@ class Check(PropertyCheck):
         if self._caps[key] <= 6:
             out.append(Violation(kind, what, case=case, expected=expected, observed=observed))
 
-    def check_units(self, oracle_only: bool = False) -> List[Violation]:
+    def check_units(self, oracle_only: bool = False, only: Optional[List[Any]] = None) -> List[Violation]:
         out: List[Violation] = []
-        cases: List[Any] = self.stan_cases() + self.text_cases() + self.starttag_cases() + self.depr_cases()
-        xmls = self.xml_cases()
-        cases += [[3, s] for s in xmls]
-        cases += [[8, s] for s in xmls if '<!' not in s and '<?' not in s and ':' not in s and 'xmlns' not in s
-                  and not re.search(r'&#(9|10|13|x0*[9aAdD]);', s)]
+        if only is not None:
+            cases: List[Any] = list(only)
+        else:
+            cases = self.stan_cases() + self.text_cases() + self.starttag_cases() + self.depr_cases()
+            xmls = self.xml_cases()
+            cases += [[3, s] for s in xmls]
+            cases += [[8, s] for s in xmls if '<!' not in s and '<?' not in s and ':' not in s and 'xmlns' not in s
+                      and not re.search(r'&#(9|10|13|x0*[9aAdD]);', s)]
         self.evaluations += len(cases)
         impl = lib.run_impl_worker('c10_units.py', cases, jobs=16 if len(cases) > 4000 else 4)
         # what the model is asked: fn 13 = html2stan(encode t) -> two model calls; fn 14 has no model counterpart (oracle only)
@@ -856,24 +862,31 @@ class Check(PropertyCheck):
         pl: Dict[str, Any] = {}
         for site in SITES:
             p = self.adv(4, STRICT if strict else None)
-            if strict and not p:
-                p = self.rng.choice(STRICT)
+            if strict:
+                # short values: the colouriser wraps long lines (a layout element that follows the length, not the content)
+                while len(p) > 24:
+                    p = self.adv(3, STRICT)
+                if not p:
+                    p = self.rng.choice(STRICT)
             if site.startswith('doc') or site == 'attr_doc':
                 p = ''.join(ch for ch in p if ch not in DOC_MARKUP).strip()
                 p = re.sub(r'\s+', ' ', p)
                 if p.startswith('>>>') or not p:
                     p = 'w' + p
-                if strict and site == 'doc3':
-                    p = BENIGN       # the type field: its text is a type expression (quotes, commas ... are its markup)
+                if site == 'doc3':
+                    # the type field: its text is a type expression (quotes, commas, white space ... are its markup)
+                    p = BENIGN if strict else (re.sub(r'\s+', '', p) or 'w')
             elif site == 'modname':
                 p = ''.join(ch for ch in p if ch not in NAME_BAD and ord(ch) >= 32 and not (0xD800 <= ord(ch) < 0xE000))[:10].strip()
                 p = p.encode('utf-8', 'ignore').decode('utf-8')
                 if not p or p in ('__init__',):
                     p = 'm<b>'
+                if strict:
+                    p = 'x' + p    # the name index groups names by first letter: same letter as the harmless module
             elif site == 'depr':
                 p = 'x-x'      # this site is covered by the unit stream (fn 10) and by one dedicated project
             elif site == 'annot_str':
-                p = p + ' )'   # a string annotation that is not an expression, like the harmless one
+                p = ') ' + p   # a string annotation that is not an expression, like the harmless one
             pl[site] = ''.join(ch for ch in p if not (0xD800 <= ord(ch) < 0xE000))
         return pl
 
@@ -910,7 +923,7 @@ class Check(PropertyCheck):
     def check_projects(self, n_per_format: Optional[int] = None) -> List[Violation]:
         out: List[Violation] = []
         if n_per_format is None:
-            n_per_format = 1 if self.tier == 'quick' else 40
+            n_per_format = 4 if self.tier == 'quick' else 150
         jobs = self.project_jobs(n_per_format)
         specs = [project(j['fmt'], j['payloads']) for j in jobs]
         res = lib.run_impl_worker('c10_project.py', specs, jobs=min(16, max(1, len(specs) // 4)), timeout=3000)
@@ -1020,28 +1033,21 @@ class Check(PropertyCheck):
             print('property: every page parses as XML and holds exactly the elements/attributes of the harmless project')
             print('result  :', msg or 'holds on this input')
             return 1 if msg else 0
+        # a unit case: the oracle on the real code, and the model/implementation comparison
+        b, _ = lib.build_model(self.id + '_stan', 'XStan.v')
+        oracle_only = b is None
+        if b is not None:
+            self.binaries['stan'] = b
+        self._xml_pending = []
+        self._caps = {}
         o = lib.run_impl_worker('c10_units.py', [case])[0]
-        fn = case[0]
-        msg = None
-        if isinstance(o, list) and o and o[0] == 'exc':
-            msg = 'real code raised %s' % o[1]
-        elif fn == 0:
-            msg = oracle_flatten(case, o)
-        elif fn == 7:
-            msg = oracle_starttag(case, o)
-        elif fn == 10:
-            msg = self.oracle_depr(case, o)
-        elif fn in (13, 14):
-            msg = oracle_reparse(case, o)
         print('case    :', json.dumps(case)[:1500])
         print('observed:', json.dumps(o)[:1500])
-        if fn in (3, 5, 6, 8, 9) or msg is None:
-            # no direct statement of the property for this function: show the model's answer
-            try:
-                b, _ = lib.build_model(self.id + '_stan', 'XStan.v')
-                if b is not None and fn in (0, 3, 5, 6, 7, 8, 9, 10):
-                    print('model   :', lib.run_model(b, [enc(case)])[0][:600])
-            except Exception as e:  # noqa
-                print('model   : unavailable (%s)' % e)
-        print('property:', msg or 'holds on this input (for fn 3/5/6/8/9 only model correspondence applies)')
-        return 1 if msg else 0
+        if b is not None and case[0] in (0, 3, 5, 6, 7, 8, 9, 10):
+            print('model   :', lib.run_model(b, [enc(case)])[0][:800])
+        vs = self.check_units(oracle_only=oracle_only, only=[case])
+        for v in vs:
+            print('%-8s: %s' % (v.kind, v.what[:600]))
+        if not vs:
+            print('property: holds on this input (oracle and model/implementation correspondence)')
+        return 1 if vs else 0
